@@ -28,7 +28,7 @@ MANIFEST = {
 REQUIRED = ["KV.C06.header_counts", "KV.C06.specials", "KV.C06.closed_spec", "KV.C06.normalised_abstract",
             "KV.C06.ctx_mass_identity", "KV.C06.normalised", "KV.C06.normalised_estimate", "KV.C06.normalised_table",
             "KV.C06.normalised_corpus", "KV.C06.normalised_corpus1", "KV.C06.tableWF_countFull", "KV.C06.prob_le_zero",
-            "KV.C06.score_bounds", "KV.C06.header_counts_corpus", "KV.C06.closed_corpus", "KV.C06.specials_corpus",
+            "KV.C06.score_bounds", "KV.C06.normalised_stream", "KV.C06.header_counts_corpus", "KV.C06.closed_corpus", "KV.C06.specials_corpus",
             "KV.C06.keep_specials_tree", "KV.C06.prune_copies_specials_tree"]
 
 SUM_TOL = 2e-5
